@@ -2,6 +2,9 @@
 # usage: check.sh <property-id> <quick|thorough>
 # Rebuilds wirecheck when its sources are newer than the binary, then analyses
 # /repo's current working tree. No hooks are needed: the analysis reads source.
+# thorough = quick rules + build matrix (in wirecheck) + self-validation of the
+# rules on scratch copies of the current tree (mutant catalogue, neutral
+# variants, confirmed seeded changes), recorded in the evidence.
 cd /verif || exit 2
 export GOFLAGS=-mod=mod GOPROXY=off GOSUMDB=off GOTOOLCHAIN=local
 unset GOWORK
@@ -9,4 +12,10 @@ if [ ! -x bin/wirecheck ] || [ -n "$(find checker -newer bin/wirecheck \( -name 
   mkdir -p bin
   (cd checker && go build -o ../bin/wirecheck .) || { echo "wirecheck: build failed"; exit 2; }
 fi
-exec bin/wirecheck -property "$1" -tier "${2:-quick}" -repo /repo -evidence /verif/evidence -known /verif/known_findings.json
+TIER="${2:-${VERIF_TIER:-quick}}"
+bin/wirecheck -property "$1" -tier "$TIER" -repo /repo -evidence /verif/evidence -known /verif/known_findings.json
+rc=$?
+if [ "$TIER" = thorough ] && [ -f "/verif/evidence/$1.json" ]; then
+  python3 tools/selfval.py "$1"
+fi
+exit $rc
